@@ -64,8 +64,8 @@ func isTimerChan(v ssa.Value, d int) bool {
 	if fa, ok := ld.X.(*ssa.FieldAddr); ok && fieldName(fa.X.Type(), fa.Field) == "C" && isNamedType(fa.X.Type(), "time", "Timer") {
 		return true
 	}
-	if cell := cellOf(ld.X); cell != nil {
-		sts := storesTo(cell)
+	if lv := lvarOf(ld.X); lv.ok() {
+		sts := storesToVar(lv)
 		if len(sts) == 0 {
 			return false
 		}
